@@ -1,5 +1,6 @@
 import AdaVerif.Model.Pattern
 import AdaVerif.Spec.Setters
+import AdaVerif.Spec.Pattern
 import AdaVerif.Lemmas.Ascii
 /-
 C15 — URLPattern construction canonicalises components exactly as the URL parser does.
@@ -53,6 +54,18 @@ theorem simple_pathname_not_stripped (s : Bytes) (h : ∀ b ∈ s, isSimplePath 
   apply List.filter_eq_self.mpr
   intro b hb
   simp [(simple_pathname_class b (h b hb)).2.2.2.2.2.2]
+
+/-- `escape_pattern_table` marks exactly the code points "escape a pattern string" escapes -/
+theorem escape_pattern_table : ∀ b : UInt8, (tget Gen.escapePatternTable b.toNat != 0) = Spec.Pattern.isPatternSyntax b := by
+  apply forall_uint8_of_fin; decide +kernel
+
+/-- `escape_regexp_table` marks exactly the code points "escape a regexp string" escapes:
+    . + * ? ^ $ { } ( ) [ ] | / \ -/
+theorem escape_regexp_table : ∀ b : UInt8, (tget Gen.escapeRegexpTable b.toNat != 0) =
+    (b == 0x2E || b == 0x2B || b == 0x2A || b == 0x3F || b == 0x5E || b == 0x24 || b == 0x7B || b == 0x7D || b == 0x28 ||
+     b == 0x29 || b == 0x5B || b == 0x5D || b == 0x7C || b == 0x2F || b == 0x5C) := by
+  apply forall_uint8_of_fin; decide +kernel
+
 
 /-- T5: `canonicalize_port`'s rule on the significant digits - "at most five, and if five then not
     lexicographically above 65535" - is the numeric rule "value ≤ 65535" (five-digit strings) -/
